@@ -3,11 +3,17 @@ C18 — All guarantees hold for every configuration, and equal configurations ag
 Every theorem in `Props/` is universally quantified over the key type (`LinearOrder K`), the value
 and page digest types, the level function `lvl : K → Nat` (hasher × level base, levels < 255) and
 the page hasher configuration `hc`. This file records the consequences the property names.
-What is NOT modelled — the three constructors, `Builder`, `SipHasher::new(seed)`, feature-gated
-code — is decided by the `tcfg` correspondence stream over feature sets × profiles (DESIGN §7 C18).
+The construction layer — `Builder` and its two setters, `build`, `default()`, the deprecated
+`new_with_hasher`, `Clone`/`clone_from`, the stored hasher and level base, `SipHasher::default()` /
+`SipHasher::new(seed)` over the `std::hash::Hash` byte streams of the key/value types, and
+`upsert(key, value)` computing digests and the level from them — is modelled in `Model/Api.lean`; the
+`C18_api_*` theorems below lift the tree-level results to it. What remains decided by correspondence
+only: cargo features (display / tracing code) and the build profiles (`tcfg` stream over feature
+sets × profiles, DESIGN §7 C18).
 -/
 import MstVerif.Props.C01
 import MstVerif.Props.C10
+import MstVerif.Proofs.Api
 
 namespace Mst.Props
 open Mst
@@ -42,5 +48,75 @@ theorem C18_constructors :
     (Tree.default : Tree K V D) = Tree.builderBuild ∧ (Tree.default : Tree K V D) = Tree.newWithHasher ∧
     (Tree.default : Tree K V D) = Tree.empty :=
   ⟨rfl, rfl, rfl⟩
+
+/-! ### The construction / configuration layer (`Model/Api.lean`) -/
+
+/-- The three constructors agree: `Builder::default().build()` is `MerkleSearchTree::default()`,
+`Builder::default().with_hasher(h).build()` is the deprecated `new_with_hasher(h)`; the builder's two
+setters commute and `build` stores exactly the last hasher and the last base supplied, whatever the
+order of the calls; `clone` and `clone_from` yield the source (hasher and base included). -/
+theorem C18_api_constructors (b : TreeBuilder) (h : HasherM) (n : Nat) (m m' : MST K D) :
+    (TreeBuilder.default.build : MST K D) = MST.default ∧
+    ((TreeBuilder.default.withHasher h).build : MST K D) = MST.newWithHasher h ∧
+    (b.withHasher h).withLevelBase n = (b.withLevelBase n).withHasher h ∧
+    (((b.withHasher h).withLevelBase n).build : MST K D) = { hasher := h, levelBase := n, tree := Tree.empty } ∧
+    (((b.withLevelBase n).withHasher h).build : MST K D) = { hasher := h, levelBase := n, tree := Tree.empty } ∧
+    m.clone = m ∧ m'.cloneFrom m = m :=
+  ⟨rfl, rfl, rfl, rfl, rfl, rfl, rfl⟩
+
+/-- **Equal configurations agree, at the level of the public API.** Two freshly constructed trees
+that store the same hasher and the same level base — however they were obtained: `default()`, the
+builder with its setters in either order, the deprecated constructor, a clone — driven through ANY
+two histories of `upsert(key, value)` / `root_hash()` calls that leave the same last value per key,
+never panic and end, after a hash request, in the identical tree: same root hash, same page ranges.
+Holds for the default and every seeded `SipHasher` (16-byte digests) and for every custom hasher
+with digests of at most 32 bytes, every level base, every key type / `Hash` encoding. -/
+theorem C18_api_interchangeable (hc : HashCfg K (List UInt8) D) (e : Enc K)
+    (hw : ∀ r, (e.envK r).length ≤ 32)
+    (m₁ m₂ : MST K D) (h₁ : m₁.tree = Tree.empty) (h₂ : m₂.tree = Tree.empty)
+    (hh : m₂.hasher = m₁.hasher) (hb : m₂.levelBase = m₁.levelBase)
+    (ops₁ ops₂ : List (AOp K)) (h : ∀ k, lastWriteA k none ops₁ = lastWriteA k none ops₂) :
+    ∃ r₁ r₂, MST.runFrom hc e m₁ ops₁ = .ok r₁ ∧ MST.runFrom hc e m₂ ops₂ = .ok r₂ ∧
+      r₁.hasher = m₁.hasher ∧ r₁.levelBase = m₁.levelBase ∧
+      r₂.hasher = r₁.hasher ∧ r₂.levelBase = r₁.levelBase ∧
+      (r₁.genRootHash hc).tree = (r₂.genRootHash hc).tree ∧
+      (r₁.genRootHash hc).tree.rootHash = (r₂.genRootHash hc).tree.rootHash ∧
+      (r₁.genRootHash hc).tree.serialise = (r₂.genRootHash hc).tree.serialise := by
+  have hk : m₂.keyLevel e = m₁.keyLevel e := MST.keyLevel_congr e m₁ m₂ hh hb
+  have ht : m₂.toOp e = m₁.toOp e := MST.toOp_congr e m₁ m₂ hh
+  have hlw : ∀ k, lastWrite (ops₁.map (m₁.toOp e)) k = lastWrite (ops₂.map (m₁.toOp e)) k := by
+    intro k
+    have a := lastWriteFrom_map_toOp m₁ e k ops₁ none
+    have b := lastWriteFrom_map_toOp m₁ e k ops₂ none
+    simp only [Option.map_none] at a b
+    unfold lastWrite
+    rw [a, b, h k]
+  obtain ⟨t₁, t₂, e₁, e₂, _, g, gr, gs⟩ :=
+    C01 (m₁.keyLevel e) (MST.keyLevel_lt_255 m₁ e hw) hc _ _ hlw
+  refine ⟨{ m₁ with tree := t₁ }, { m₂ with tree := t₂ }, ?_, ?_, rfl, rfl, hh, hb, g, gr, gs⟩
+  · rw [MST.runFrom_refines, h₁]
+    have : Mst.runFrom (m₁.keyLevel e) hc Tree.empty (ops₁.map (m₁.toOp e)) = .ok t₁ := e₁
+    rw [this]
+  · rw [MST.runFrom_refines, h₂, hk, ht]
+    have : Mst.runFrom (m₁.keyLevel e) hc Tree.empty (ops₂.map (m₁.toOp e)) = .ok t₂ := e₂
+    rw [this]
+
+/-- Instance: a tree from the builder (setters in either order) with base 16 and hasher `h`, one from
+the deprecated constructor with `h`, and — for the default hasher — `default()` are interchangeable. -/
+theorem C18_api_three_constructors (hc : HashCfg K (List UInt8) D) (e : Enc K)
+    (hw : ∀ r, (e.envK r).length ≤ 32) (h : HasherM)
+    (ops₁ ops₂ : List (AOp K)) (hl : ∀ k, lastWriteA k none ops₁ = lastWriteA k none ops₂) :
+    ∃ r₁ r₂, MST.runFrom hc e (((TreeBuilder.default.withLevelBase defaultLevelBase).withHasher h).build) ops₁ = .ok r₁ ∧
+      MST.runFrom hc e (MST.newWithHasher h) ops₂ = .ok r₂ ∧
+      (r₁.genRootHash hc).tree = (r₂.genRootHash hc).tree := by
+  obtain ⟨r₁, r₂, a, b, _, _, _, _, c, _⟩ :=
+    C18_api_interchangeable hc e hw (((TreeBuilder.default.withLevelBase defaultLevelBase).withHasher h).build)
+      (MST.newWithHasher h) rfl rfl rfl rfl ops₁ ops₂ hl
+  exact ⟨r₁, r₂, a, b, c⟩
+
+/-- Different values of one key/value type feed different byte streams to the hasher (`impl Hash`
+framing: length prefix for byte slices and arrays, `0xff` terminator for strings). -/
+theorem C18_api_hash_framing (kind : HKind) (a b : List UInt8)
+    (h : stdHashBytes kind a = stdHashBytes kind b) : a = b := stdHashBytes_injective kind a b h
 
 end Mst.Props
